@@ -352,9 +352,7 @@ func replayMain(ctx *Ctx, pc *propCheck, file string) int {
 		return 1
 	}
 	if pc.replay == nil {
-		fmt.Println("replay: this property has no replay function; recorded violation:")
-		fmt.Println(string(b))
-		return 1
+		return genericReplay(m.Violation)
 	}
 	pc.replay(ctx, m.Violation.Input)
 	if len(ctx.Violations) > 0 {
@@ -416,4 +414,48 @@ func projectInput(p Project) map[string]any {
 	// human-readable rendering of the root file
 	m["root_text"] = string(p.Files[p.Root])
 	return m
+}
+
+// genericReplay re-runs the recorded input on the implementation as it is now and prints the outcome next to
+// what was recorded (the property-specific oracle is not re-evaluated; the check itself does that).
+func genericReplay(v Violation) int {
+	fmt.Println("recorded violation:", v.What)
+	in := v.Input
+	if files, ok := in["files"].(map[string]any); ok {
+		p := Project{Files: map[string][]byte{}}
+		for k, x := range files {
+			p.Files[k] = unhx(fmt.Sprint(x))
+		}
+		p.Root, _ = in["root"].(string)
+		if bb, ok := in["banned"].([]any); ok {
+			for _, b := range bb {
+				for k := 0; k < 30; k++ {
+					if directiveName(k) == fmt.Sprint(b) {
+						p.Banned = append(p.Banned, directiveOf(k))
+					}
+				}
+			}
+		}
+		res := RunProject(p, false)
+		fmt.Println("implementation now:", res.Verdict())
+		if res.Err != nil {
+			fmt.Printf("  at %s index %d line %d quote %q trace %v\n", res.Err.File, res.Err.Index, res.Err.Line, res.Err.Quote, res.Err.Trace)
+		}
+		if res.JSON != nil {
+			fmt.Println("  json:", trunc(string(res.JSON), 1500))
+		}
+		if v.Expected != nil {
+			fmt.Printf("expected: %v\n", v.Expected)
+		}
+		return 1
+	}
+	if toks, ok := in["tokens"].(string); ok {
+		r := runCtx(parseCToks(toks))
+		fmt.Printf("implementation now: scan=%s paste=%s panic=%s\n", r.Scan, r.Paste, r.Panic)
+		fmt.Printf("recorded: observed=%v expected=%v\n", v.Observed, v.Expected)
+		return 1
+	}
+	b, _ := json.MarshalIndent(v, "", " ")
+	fmt.Println(string(b))
+	return 1
 }
